@@ -174,18 +174,37 @@ IDENT = {'label': 'NetworkNode', 'node_label': 'ConnectionPoint', 'node1_label':
 VALUE_ARGS = {'node_id', 'node_a', 'node_b', 'node_z', 'prop_val', 'name', 'node_name', 'ntype'}
 
 
+NOT_OPS = ('serialize_graph', 'validate_graph', 'get_graph_property_diff', 'get_bqm', 'merge_adm', 'unmerge_adm', 'snapshot', 'rollback')
+
+
 def discover(cls):
-    """public methods that talk to the driver (source mentions session.run) - a new operation is picked up automatically"""
+    """public methods defined by the Neo4j backend classes themselves that hand at least one statement to the driver when
+    tried with benign arguments (so an operation that reaches the driver through a helper is found too); a method whose
+    arguments cannot be generated is kept and reported as unsupported, never dropped silently"""
     ops = []
-    for name, fn in inspect.getmembers(cls, predicate=inspect.isfunction):
-        if name.startswith('_') or name in ('serialize_graph', 'validate_graph', 'get_graph_property_diff'):
-            continue
-        try:
-            src = inspect.getsource(fn)
-        except (OSError, TypeError):
-            continue
-        if 'session.run' in src or 'session().run' in src:
-            ops.append(name)
+    owners = [k for k in cls.__mro__ if k.__module__.startswith('fim.graph') and 'neo4j' in k.__module__]
+    seen = set()
+    for k in owners:
+        for name, fn in k.__dict__.items():
+            if name.startswith('_') or name in NOT_OPS or name in seen or not inspect.isfunction(fn):
+                continue
+            seen.add(name)
+            try:
+                build_args(cls, name, 'a', 'b')
+            except KeyError:
+                try:
+                    src = inspect.getsource(fn)
+                except (OSError, TypeError):
+                    src = ''
+                if 'session' in src or 'query' in src:
+                    ops.append(name)
+                continue
+            try:
+                got, _ = run_op(cls, name, 'a', 'b')
+            except Exception:
+                got = []
+            if got:
+                ops.append(name)
     return sorted(ops)
 
 
